@@ -18,10 +18,13 @@ REQUIRED = {t: ["oracle:C13.write-valid", "oracle:C13.write-invalid-refused", "o
 
 
 def plan(tier, seed):
-    return [{"kind": "strings", "n": 3000 if tier == "quick" else 400000}]
+    return [{"kind": "strings", "n": 20000 if tier == "quick" else 400000}, {"kind": "repo-tests"}]
 
 
 def run_shard(desc, rec):
+    if desc["kind"] == "repo-tests":
+        from ..drivers import repotests
+        return repotests.run_shard(desc, rec)
     strings.run_shard(desc, rec)
 
 
